@@ -721,6 +721,28 @@ func (ev *SpecEnv) call(n *SCall) TV {
 		case *Term:
 			return TV{x.intLt(v, ev.old.alloc), boolT}
 		}
+	case "visited":
+		// visited(k): key k was already produced by the map iteration of the enclosing loop
+		if ev.loop == nil || ev.fr == nil {
+			unsupp("visited(k) outside a loop invariant")
+		}
+		var rng *ssa.Range
+		for _, in := range ev.loop.header.Instrs {
+			if nx, ok := in.(*ssa.Next); ok {
+				if r, ok := nx.Iter.(*ssa.Range); ok {
+					rng = r
+				}
+			}
+		}
+		if rng == nil {
+			unsupp("visited(k): the loop is not a map range loop")
+		}
+		vis, ok := ev.state().getCell(rng)
+		if !ok {
+			unsupp("visited(k): iteration not started")
+		}
+		k := ev.eval(n.Args[0])
+		return TV{tc.Select(vis.(*Term), x.asComparable(k.v).(*Term)), boolT}
 	case "at":
 		// at(s, p): element of slice s's backing array at absolute position p (p ranges over s.off .. s.off+len(s)-1)
 		a := ev.eval(n.Args[0])
